@@ -22,6 +22,8 @@ def snap(p):
 
 def in_bounds(p):
     v, lo, hi = p.get(), p.min_bound, p.max_bound
+    if isinstance(v, float) and v != v:
+        return True           # NaN against bounds is outside the alphabet (DESIGN 6); only its effect on circuits is checked
     if isinstance(v, str) or isinstance(v, bool):
         return lo is None and hi is None
     return (lo is None or v >= lo) and (hi is None or v <= hi)
@@ -103,7 +105,7 @@ def automaton(env, acc, via_dict):
 # ---------------------------------------------------------------------------
 # part B: parameters inside circuits
 # ---------------------------------------------------------------------------
-TEMPLATES = ["bs", "ps", "loss", "bsloss", "group", "herald", "twice", "nested", "pre_herald", "nonadj"]
+TEMPLATES = ["bs", "ps", "loss", "bsloss", "group", "herald", "twice", "nested", "pre_herald", "nonadj", "plus"]
 
 
 def make_template(name, p, p2, env):
@@ -131,6 +133,10 @@ def make_template(name, p, p2, env):
     elif name == "nonadj":         # non-adjacent beam splitter and swaps: the in-place rewrites have work to do
         c = lw.Circuit(3); c.mode_swaps({0: 1, 1: 0}); c.bs(2, 0, reflectivity=p, convention="H")
         c.mode_swaps({1: 2, 2: 1}); c.ps(1, p2); c.mode_swaps({0: 2, 2: 0})
+    elif name == "plus":           # the sum of two circuits follows the parameters of both operands
+        a = lw.Circuit(2); a.bs(0, reflectivity=p)
+        b = lw.Circuit(2); b.ps(0, p2); b.bs(0, reflectivity=p, convention="H")
+        c = a + b
     elif name == "pre_herald":     # parameters already in the host when a heralded sub-circuit is added
         c = lw.Circuit(3); c.bs(0, 1, reflectivity=p); c.ps(2, p2); c.loss(1, p)
         g = lw.Circuit(2); g.bs(0, reflectivity=p2); c.add(g, 1, group=True)
@@ -149,6 +155,7 @@ def ref_template(name, v, v2, env):
         if not unit(v): return None
         r = RefCircuit(2); r.bs(0, 1, v, "H")
     elif name == "ps":
+        if isinstance(v, float) and v != v: return "skip"        # a NaN phase: outside the alphabet (DESIGN 6)
         r = RefCircuit(2); r.bs(0, 1, 0.5); r.ps(1, v); r.bs(0, 1, 0.5)
     elif name == "loss":
         if not unit(v): return None
@@ -175,6 +182,9 @@ def ref_template(name, v, v2, env):
         if not unit(v): return None
         r = RefCircuit(3); r.swaps({0: 1, 1: 0}); r.bs(2, 0, v, "H"); r.swaps({1: 2, 2: 1}); r.ps(1, v2)
         r.swaps({0: 2, 2: 0})
+    elif name == "plus":
+        if not unit(v): return None
+        r = RefCircuit(2); r.bs(0, 1, v); r.ps(0, v2); r.bs(0, 1, v, "H")
     elif name == "pre_herald":
         if not (unit(v) and unit(v2)): return None
         r = RefCircuit(3); r.bs(0, 1, v); r.ps(2, v2); r.loss(1, v); r.bs(1, 2, v2)
@@ -185,7 +195,7 @@ def ref_template(name, v, v2, env):
     return r
 
 
-N_PARAMS = {"bs": 1, "ps": 1, "loss": 1, "bsloss": 1, "group": 2, "herald": 2, "twice": 2, "nested": 2, "pre_herald": 2, "nonadj": 2}
+N_PARAMS = {"plus": 2, "bs": 1, "ps": 1, "loss": 1, "bsloss": 1, "group": 2, "herald": 2, "twice": 2, "nested": 2, "pre_herald": 2, "nonadj": 2}
 
 
 class World:
@@ -303,6 +313,8 @@ def check_world(w, case, acc):
     for item in w.circs:
         v, v2 = item["frozen"] if item["frozen"] is not None else (w.p.get(), w.p2.get())
         ref = ref_template(item["tmpl"], v, v2, env)
+        if isinstance(ref, str):
+            continue
         c = item["circ"]
         sub = {**case, "template": item["tmpl"], "kind": item["kind"], "values": [v, v2]}
         try:
@@ -339,7 +351,7 @@ def check_world(w, case, acc):
 
 def explore_b(env, depth):
     g, g2 = env.R[1], env.L[1]
-    alpha = [("set", v) for v in (g, g2, 0, 1, 1.5, -0.2)] + [("set2", v) for v in (env.R2, 1.25, g)] \
+    alpha = [("set", v) for v in (g, g2, 0, 1, 1.5, -0.2, float("nan"))] + [("set2", v) for v in (env.R2, 1.25, g)] \
         + [("pdset", g2), ("pdset", 1.5), ("minb", 0), ("maxb", 1), ("maxb", None), ("minb", None)] \
         + [("pd_overwrite",), ("pd_alias",), ("pd_alias_set", 1.25), ("pd_alias_set", g2), ("pd_remove",), ("pd_new_plain",)] \
         + [("make", t) for t in TEMPLATES] + [("copy",), ("freeze",)] \
